@@ -47,6 +47,7 @@ CORPUS = os.path.join(vlib.VERIF, "corpus", "bgpsec")
 # corpus file -> (property, signature or None)
 CORPUS_FILES = {
     "rfc8208_example.ops": ("C11", None),
+    "seeded_C11_f_foreign_as_key_last.ops": ("C11", None),
     "F10_key_as_mismatch.ops": ("C11", SIG_F10),
     "Fbgp1_pathlen_wrap_validate.ops": ("C11", "C11/segment-count-wrap"),
     "Fbgp1_pathlen_wrap_sign.ops": ("C12", "C12/segment-count-wrap"),
@@ -331,6 +332,33 @@ def build_tables(r, case, extra_keys, kind):
         r.shuffle(res)
     case.table = res
     case.kind = kind
+
+
+KEY_ROLES = ("RR", "WR", "RW", "WW")     # (Right|Wrong key) under (Right|Wrong AS), all with the hop's SKI
+
+
+def systematic_tables(case, victim, wrong_key, max_len=4):
+    """For hop `victim` of a signed case: every sequence (all subsets, ALL insertion orders) of up to `max_len`
+    of the four kinds of router key carrying the hop's SKI
+        RR the signer's key under the hop's AS      WR another key under the hop's AS
+        RW the signer's key under another AS        WW another key under another AS
+    while every other hop has its own key under its own AS.  The victim's keys are inserted at the position of
+    the hop's own key, so that table order = order of the sequence (spki_table_search_by_ski returns insertion
+    order).  Yields (label, table)."""
+    import itertools
+    d = case.d
+    n = len(d.path)
+    asn = d.path[victim][2]
+    k = case.signers[victim]
+    other_asn = (asn ^ 0x10000) & 0xffffffff
+    entry = {"RR": (asn, k.ski, k.spki), "WR": (asn, k.ski, wrong_key.spki),
+             "RW": (other_asn, k.ski, k.spki), "WW": (other_asn, k.ski, wrong_key.spki)}
+    plain = [(d.path[i][2], case.signers[i].ski, case.signers[i].spki) for i in range(n)]
+    for ln in range(1, max_len + 1):
+        for seq in itertools.permutations(KEY_ROLES, ln):
+            tab = plain[:victim] + [entry[x] for x in seq] + plain[victim + 1:]
+            # a hop further down the path may use the same AS/SKI only by accident (random 32-bit / SHA-1 values)
+            yield "hop %d keys %s" % (victim, ">".join(seq)), tab
 
 
 # ------------------------------------------------------------------------------------------
@@ -687,18 +715,79 @@ def run(pid, tier):
     return rep.finish()
 
 
-def check_requests(reqs, mode, divergences, oracle_fails, stats, distinct, note):
+def minimise_request(R, q, mode, vcache):
+    """smaller request on which the implementation still contradicts the oracle: cut the path to the suffix that
+    starts at the first hop the oracle rejects (a suffix of a signed path is a signed path whose target is the AS
+    of the hop before it), then drop router keys one by one"""
+    def fails(d, table):
+        x = VReq(d, table, q.tag)
+        try:
+            run_validations(R, [x], mode, vcache)
+        except Crash:
+            return None
+        return x if not oracle_agrees(x) else None
+    best = q
+    m = re.search(r"hop (\d+):", q.oracle_why or "")
+    if m and int(m.group(1)) > 0 and len(q.d.path) == len(q.d.sigs):
+        h = int(m.group(1))
+        d = q.d.copy()
+        d.target = d.path[h - 1][2]
+        d.path = d.path[h:]
+        d.sigs = d.sigs[h:]
+        x = fails(d, q.table)
+        if x:
+            best = x
+    changed = True
+    tests = 0
+    while changed and tests < 60:
+        changed = False
+        for i in range(len(best.table)):
+            tests += 1
+            x = fails(best.d, best.table[:i] + best.table[i + 1:])
+            if x:
+                best = x
+                changed = True
+                break
+    return best
+
+
+MINIMISED = [0]
+
+
+def describe_keys(q, vcache):
+    if vcache is None or not q.d.supported():
+        return "-"
+    out = []
+    for i, (ski, sig) in enumerate(q.d.sigs):
+        ks = []
+        for a, s_, k in q.table:
+            if s_ == ski:
+                v = [o for (sp, dg, sg), o in vcache.items() if sp == k.hex() and sg == sig.hex()]
+                ks.append("AS%d:%s" % (a, "/".join(sorted(set(x for x in v if x))) or "?"))
+        out.append("hop %d (AS%d, SKI %s..): [%s]" % (i, q.d.path[i][2], ski.hex()[:8], ", ".join(ks)))
+    return "; ".join(out)
+
+
+def check_requests(reqs, mode, divergences, oracle_fails, stats, distinct, note, R=None, vcache=None):
     bad = 0
     for q in reqs:
         hist(stats["codes"], q.impl)
         distinct.add((q.d.toks(), table_toks(q.table), q.impl))
         line = "validate %s %s" % (q.d.toks(), table_toks(q.table))
+        if not oracle_agrees(q) and R is not None and MINIMISED[0] < 2 and not (mode == "ski" or mode.startswith("ski+")):
+            MINIMISED[0] += 1
+            q0 = q
+            q = minimise_request(R, q, mode, vcache)
+            q.tag = q0.tag + ", minimised"
+            line = "validate %s %s" % (q.d.toks(), table_toks(q.table))
         if not oracle_agrees(q):
             # F10 class: the AS number is ignored when router keys are looked up (VALID with a key of another AS, or
             # NOT_VALID/ERROR instead of ROUTER_KEY_NOT_FOUND when the segment's AS has no key under that SKI)
-            sig = SIG_F10 if (q.f10 and q.impl in ("VALID", "NOT_VALID", "ERROR")) else None
-            oracle_fails.append((sig, "# C11 fails on the implementation (%s, %s)\n# rtr_bgpsec_validate_as_path answered %s; the property demands %s\n# because: %s\n%s\n" % (
-                note, q.tag, q.impl, q.oracle, q.oracle_why or "-", line if len(line) < 30000 else line[:30000] + " …")))
+            # (only when the corpus replay showed that this tree selects keys by SKI only; on a tree that passes the
+            # replay any such failure is a new violation)
+            sig = SIG_F10 if (mode.startswith("ski+") or mode == "ski") and (q.f10 and q.impl in ("VALID", "NOT_VALID", "ERROR")) else None
+            oracle_fails.append((sig, "# C11 fails on the implementation (%s, %s)\n# rtr_bgpsec_validate_as_path answered %s; the property demands %s\n# because: %s\n# router keys carrying the SKIs of the path, in table order (AS, SKI.., verifies hop's signature over the RFC 8205 octets?): %s\n%s\n" % (
+                note, q.tag, q.impl, q.oracle, q.oracle_why or "-", describe_keys(q, vcache), line if len(line) < 30000 else line[:30000] + " …")))
             bad += 1
         if q.impl != q.model:
             divergences.append(("decision logic (%s, %s, key mode %s)" % (note, q.tag, mode), line, q.impl, q.model))
@@ -717,7 +806,33 @@ def run_c11(R, r, rep, stats, lens, mode, vcache, thorough, divergences, oracle_
         hist(stats["table_kinds"], c.kind)
         reqs.append(VReq(c.d, c.table, "case %d (%s, %d hops, afi %d /%d)" % (c.cid, c.kind, len(c.d.path), c.d.afi, c.d.nlen)))
     run_validations(R, reqs, mode, vcache)
-    check_requests(reqs, mode, divergences, oracle_fails, stats, distinct, "signed path")
+    check_requests(reqs, mode, divergences, oracle_fails, stats, distinct, "signed path", R, vcache)
+    # systematic key tables: for a hop, every insertion order of every selection of
+    # {right key/right AS, wrong key/right AS, right key/wrong AS, wrong key/wrong AS} under the hop's SKI
+    plain_ok = [(c, q) for c, q in zip(cases, reqs) if c.kind == "plain" and q.impl == "VALID" and q.oracle == "VALID"]
+    n_sys = 10 if not thorough else 120
+    wrong = keygen(R, n_sys + 1)
+    sreqs = []
+    picked = sorted(plain_ok, key=lambda cq: (len(cq[0].d.path) > 3, cq[0].cid))[:n_sys]
+    for idx, (c, q) in enumerate(picked):
+        n = len(c.d.path)
+        victims = range(n) if n <= 3 else sorted(set([0, n - 1, r.randrange(n)]))
+        for v in victims:
+            for label, tab in systematic_tables(c, v, wrong[idx], 4 if n <= 3 else 3):
+                sreqs.append(VReq(c.d, tab, "case %d (%d hops), %s" % (c.cid, n, label)))
+                hist(stats["table_kinds"], "systematic len=%d" % (label.count(">") + 1))
+    stats["systematic_tables"] = len(sreqs)
+    B0 = 3000
+    for b0 in range(0, len(sreqs), B0):
+        part = sreqs[b0:b0 + B0]
+        run_validations(R, part, mode, vcache)
+        check_requests(part, mode, divergences, oracle_fails, stats, distinct, "systematic key table", R, vcache)
+    # the oracle must have said VALID exactly for the sequences containing RR (sanity of the generator itself)
+    for q in sreqs:
+        has_rr = "RR" in q.tag.split("keys ")[1].split(",")[0].split(">")
+        if (q.oracle == "VALID") != has_rr:
+            divergences.append(("generator self-check: oracle verdict %s for key sequence of %s" % (q.oracle, q.tag), "validate " + q.d.toks()[:300], q.impl, q.oracle))
+            break
     for q in reqs:
         rep.sample({"request": "validate " + q.d.toks()[:160] + " …", "answer": q.impl})
     # expected VALID for every case whose table holds each signer's key under its AS
